@@ -18,7 +18,9 @@ import (
 	"time"
 	_ "time/tzdata"
 
+	"github.com/danielgtaylor/huma/v2/sse"
 	gqdist "github.com/els0r/goProbe/v4/cmd/global-query/pkg/distributed"
+	"github.com/els0r/goProbe/v4/pkg/api"
 	"github.com/els0r/goProbe/v4/pkg/distributed/hosts"
 	"github.com/els0r/goProbe/v4/pkg/goDB/encoder/encoders"
 	"github.com/els0r/goProbe/v4/pkg/query"
@@ -37,7 +39,7 @@ func init() {
 		Rule: "case = (a) N row multisets (distinct semantic keys over tiny alphabets: <=3 instants each in up to 5 zone representations or no time label, 4 ifaces, 4 hosts, v4/v6/absent addresses; counters from a 4-value alphabet so sort keys tie constantly; " +
 			"occasional exact duplicates) sorted by results.By for all 24 (key in packets/bytes/time, direction in sum/in/out/both, asc/desc) from P random input orders; " +
 			"(b) the sorted rows cut by Statement.PostProcess (statement from Args.Prepare with sort_by/sort_ascending/in/out/sum/num_results, incl. time queries with a coarser time_resolution) for several limits; " +
-			"(c) 2-5 scripted hosts (own zone each) answering a distributed QueryRunner.Run in random delivery orders, unlimited and limited; (d) every 8th case a generated DB queried through the local engine with each sort argument. " +
+			"(c) 2-5 scripted hosts (own zone each) answering a distributed QueryRunner.Run in random delivery orders, unlimited and limited, and RunStreaming with >100 rows whose partial results (capped at 100 rows) are compared with the unlimited result of the hosts merged so far; (d) every 8th case a generated DB queried through the local engine with each sort argument. " +
 			"A multiset is non-trivial iff at least two rows with different semantic keys tie on the selected sort key; distinct by (rows, key, direction, asc).",
 		Assumptions: []string{
 			"rows that agree in instant, labels and attributes are the same row (same counters): results never contain two rows for one (labels, attributes) group",
@@ -48,13 +50,13 @@ func init() {
 		},
 		NumCases: func(tier, variant string) int {
 			if tier == "thorough" {
-				return 640
+				return 1600
 			}
 			return 64
 		},
 		Run: run,
 		Require: []string{"sorts", "sorts_with_key_ties", "sorts_with_equal_instant_other_zone_ties", "sorts_v4_v6_mixed", "multisets_with_duplicates",
-			"limit_checks", "limit_checks_cutting", "limit_checks_time_binned", "dist_runs", "dist_runs_with_cross_host_ties", "dist_limit_checks_cutting", "engine_queries"},
+			"limit_checks", "limit_checks_cutting", "limit_checks_time_binned", "dist_runs", "dist_runs_with_cross_host_ties", "dist_limit_checks_cutting", "dist_streaming_runs", "dist_streaming_partials_cut", "engine_queries"},
 	})
 }
 
@@ -682,6 +684,120 @@ func checkDistributed(c *fw.Case, r *rand.Rand) {
 	}
 }
 
+// checkStreaming drives RunStreaming: every partial result is capped at 100 rows (and at num_results) and must
+// be the first rows of the order of everything merged so far; the final result honours num_results only.
+func checkStreaming(c *fw.Case, r *rand.Rand) {
+	cb := allCombos[r.Intn(len(allCombos))]
+	timeQuery := r.Intn(3) == 0
+	nHosts := 2 + r.Intn(3)
+	names := []string{"hostA", "hostB", "hostC", "hostD"}[:nHosts]
+	base := 1_000_080_000 + 300*r.Int63n(1_000_000)
+	var hds []hostData
+	for hi, name := range names {
+		zone := r.Intn(len(resgen.Zones))
+		if hi == 0 {
+			zone = 0
+		}
+		hd := hostData{name: name}
+		seen := map[resgen.Key]bool{}
+		n := 40 + r.Intn(50)
+		for i := 0; i < n; i++ {
+			row := results.Row{Labels: results.Labels{Iface: []string{"eth0", "eth1"}[r.Intn(2)], Hostname: name, HostID: resgen.HostID(name)},
+				Attributes: results.Attributes{SrcIP: resgen.V4[r.Intn(len(resgen.V4))], DstPort: uint16(r.Intn(40))}}
+			if timeQuery {
+				row.Labels.Timestamp = resgen.InZone(base+300*r.Int63n(4), zone)
+			}
+			k := resgen.KeyOf(row)
+			if seen[k] {
+				continue
+			}
+			seen[k] = true
+			row.Counters = resgen.RandCounters(r, true)
+			hd.rows = append(hd.rows, row)
+		}
+		hds = append(hds, hd)
+	}
+	qtype := "sip,dport"
+	if timeQuery {
+		qtype = "time," + qtype
+	}
+	limit := uint64(math.MaxUint32)
+	if r.Intn(2) == 0 {
+		limit = uint64(5 + r.Intn(150))
+	}
+	order := r.Perm(nHosts)
+	run := func(k int, lim uint64, streaming bool) (final results.Rows, partials []results.Rows, ok bool) {
+		sq := &scriptedQuerier{byHost: map[string]*results.Result{}}
+		var hostNames []string
+		for _, i := range order[:k] {
+			sq.byHost[hds[i].name] = hostResult(hds[i])
+			sq.order = append(sq.order, hds[i].name)
+			hostNames = append(hostNames, hds[i].name)
+		}
+		rm := hosts.NewResolverMap()
+		rm.Set("string", listResolver{})
+		a := argsFor(cb, qtype, lim)
+		a.QueryHosts = strings.Join(hostNames, ",")
+		qr := gqdist.NewQueryRunner(rm, sq)
+		c.Note("distributed streaming=%v %s order=%v", streaming, a.ToJSONString(), sq.order)
+		var res *results.Result
+		var err error
+		if streaming {
+			res, err = qr.RunStreaming(context.Background(), a, sse.Sender(func(m sse.Message) error {
+				if pr, isPartial := m.Data.(*api.PartialResult); isPartial && pr.Result != nil {
+					partials = append(partials, append(results.Rows(nil), pr.Rows...))
+				}
+				return nil
+			}))
+		} else {
+			res, err = qr.Run(context.Background(), a)
+		}
+		if err != nil {
+			c.Violatef("distributed_run_error", "QueryRunner run(%s): %v", a.ToJSONString(), err)
+			return nil, nil, false
+		}
+		return res.Rows, partials, true
+	}
+	final, partials, ok := run(nHosts, limit, true)
+	if !ok {
+		return
+	}
+	c.Count("dist_streaming_runs", 1)
+	if len(partials) != nHosts {
+		c.Count("dist_streaming_unexpected_partial_count", 1)
+		return
+	}
+	eff := requested(cb, timeQuery)
+	for k := 1; k <= nHosts; k++ {
+		ref, _, ok := run(k, math.MaxUint32, false)
+		if !ok {
+			return
+		}
+		refIDs := resgen.Idents(ref)
+		want := refIDs
+		capAt := min(limit, 100)
+		if uint64(len(want)) > capAt {
+			want = want[:capAt]
+			c.Count("dist_streaming_partials_cut", 1)
+		}
+		if at := equalIdents(want, resgen.Idents(partials[k-1])); at != -1 {
+			c.Violatef("limit_not_prefix|streaming_partial", "%s query=%q num_results=%d: partial result %d (%d rows) is not the first %d rows of the order of the %d rows merged so far (first difference at %d): partial=%s expected=%s",
+				eff, qtype, limit, k, len(partials[k-1]), len(want), len(ref), at, resgen.RowsString(partials[k-1], 6), resgen.RowsString(ref, 6))
+			return
+		}
+		if k == nHosts {
+			wantFinal := refIDs
+			if uint64(len(wantFinal)) > limit {
+				wantFinal = wantFinal[:limit]
+			}
+			if at := equalIdents(wantFinal, resgen.Idents(final)); at != -1 {
+				c.Violatef("limit_not_prefix|streaming_final", "%s query=%q num_results=%d: final streaming result (%d rows) is not the first %d rows of the unlimited result (%d rows), first difference at %d", eff, qtype, limit, len(final), len(wantFinal), len(ref), at)
+				return
+			}
+		}
+	}
+}
+
 // ---- (d) local engine ----------------------------------------------------------------------------
 
 func checkEngine(c *fw.Case, r *rand.Rand) {
@@ -780,9 +896,9 @@ func run(c *fw.Case) {
 	if loc, err := time.LoadLocation(zones[c.Idx%len(zones)]); err == nil {
 		time.Local = loc
 	}
-	nSets, perms, nDist := 48, 8, 40
+	nSets, perms, nDist := 32, 6, 30
 	if c.Tier == "thorough" {
-		nSets, perms, nDist = 320, 20, 300
+		nSets, perms, nDist = 120, 20, 120
 	}
 	t0 := time.Now()
 	var dSort, dLimit time.Duration
@@ -798,6 +914,9 @@ func run(c *fw.Case) {
 	t1 := time.Now()
 	for i := 0; i < nDist; i++ {
 		checkDistributed(c, r)
+		if i%10 == 0 {
+			checkStreaming(c, r)
+		}
 	}
 	t2 := time.Now()
 	if c.Idx%8 == 0 {
